@@ -6,7 +6,7 @@ from ..oracles import cmark, htmlnorm
 from ..runner import Run, h64
 
 EXT = ["front-matter", "markdown-strikethrough", "markdown-task-list-items", "markdown-extended-autolinks", "markdown-disallow-raw-html", "linter-pragmas"]
-PLAN = {"X2": 2500, "B2/11": 2500, "N1/3": 2500, "W1": 1500, "S2": 1200, "I4/19": 1500, "U1/7": 300, "B3/19": 800}
+PLAN = {"X2": 2500, "B2/11": 2500, "N1/3": 2500, "W1": 1500, "S2": 1200, "I4/19": 1500, "U1/7": 300, "B3/19": 800, "X3/9": 1500}
 EVALUATOR = "vp.props.c20:ev"
 RULE = (
     "documents = ranks of the bounded universes incl. the extension-syntax universe X2 (~~a~~, task items, www./http/e-mail/xmpp autolinks, <script>/<title>, pragma lines, ---/YAML lines); "
